@@ -793,6 +793,8 @@ class Plugin:
                 f"{self.__class__.__name__} returned a Chunk with data_type "
                 f"{result.data_type} instead of {_dtype}."
             )
+        # A chunk made by the plugin itself may declare (and carry) another dtype
+        self._check_dtype(result.data, _dtype)
         return self.superrun_transformation(result, superrun, subruns)
 
     def chunk(self, *, start, end, data, data_type=None, run_id=None):
